@@ -6,6 +6,7 @@ import (
 
 	"github.com/consensys/gnark-crypto/ecc"
 	"github.com/consensys/gnark-crypto/ecc/bn254"
+	"github.com/consensys/gnark-crypto/ecc/bn254/fp"
 	"github.com/consensys/gnark/backend/groth16"
 )
 
@@ -61,6 +62,34 @@ func verifStubProof(name string) groth16.Proof {
 			}
 			k.Add(k, big.NewInt(1))
 		}
+	}
+	// the solver's counterexample names a coordinate magnitude (e.g. a 64-bit x): build the nearest real curve point with such an
+	// abscissa (every point of the curve is in G1), stepping by 256 so that the low byte is kept
+	onCurve := func(x0 *big.Int, out *bn254.G1Affine, pickLargeY bool) bool {
+		x := new(big.Int).Set(x0)
+		for n := 0; n < 4096 && x.BitLen() <= 254; n++ {
+			var X, Y, rhs, three fp.Element
+			X.SetBigInt(x)
+			three.SetUint64(3)
+			rhs.Square(&X).Mul(&rhs, &X).Add(&rhs, &three)
+			if Y.Sqrt(&rhs) != nil {
+				var negY fp.Element
+				negY.Neg(&Y)
+				if (Y.Cmp(&negY) < 0) == pickLargeY {
+					Y = negY
+				}
+				out.X, out.Y = X, Y
+				return out.IsOnCurve()
+			}
+			x.Add(x, big.NewInt(256))
+		}
+		return false
+	}
+	if v := verifGet("coord:ax"); v.Sign() > 0 && name == "proof" {
+		onCurve(v, &A, verifGet("coord:ay_large").Sign() > 0)
+	}
+	if v := verifGet("coord:cx"); v.Sign() > 0 && name == "proof" {
+		onCurve(v, &C, verifGet("coord:cy_large").Sign() > 0)
 	}
 	var buf bytes.Buffer
 	enc := bn254.NewEncoder(&buf, bn254.RawEncoding())
